@@ -2352,6 +2352,10 @@ pub struct TxParticipant {
     pub locks: LockManager,
     /// Store for undo log capture and rollback.
     store: TensorStore,
+    /// Transactions this participant has already committed or aborted. Messages can be
+    /// duplicated and reordered: a delayed duplicate of a Prepare (and then of the Commit)
+    /// for a finished transaction must not prepare / apply it a second time.
+    decided: RwLock<HashSet<u64>>,
 }
 
 impl std::fmt::Debug for TxParticipant {
@@ -2392,6 +2396,7 @@ impl TxParticipant {
             prepared: RwLock::new(HashMap::new()),
             locks: LockManager::new(),
             store,
+            decided: RwLock::new(HashSet::new()),
         }
     }
 
@@ -2409,6 +2414,18 @@ impl TxParticipant {
     }
 
     pub fn prepare(&self, request: PrepareRequest) -> PrepareVote {
+        // A transaction that was already committed or aborted here is finished: a delayed
+        // duplicate of its Prepare must not lock keys or be prepared again.
+        if self.decided.read().contains(&request.tx_id) {
+            tracing::debug!(
+                tx_id = request.tx_id,
+                "Participant ignoring prepare for an already decided transaction"
+            );
+            return PrepareVote::No {
+                reason: "transaction already decided".to_string(),
+            };
+        }
+
         // Use affected_key() for locking (logical keys)
         let lock_keys: Vec<String> = request
             .operations
@@ -2618,6 +2635,7 @@ impl TxParticipant {
         let mut prepared = self.prepared.write();
 
         if let Some(tx) = prepared.remove(&tx_id) {
+            self.decided.write().insert(tx_id);
             // Apply operations BEFORE releasing locks
             if let Err(e) = self.apply_operations(&tx.operations) {
                 // Operations failed - rollback and report failure
@@ -2666,6 +2684,8 @@ impl TxParticipant {
 
     pub fn abort(&self, tx_id: u64) -> TxResponse {
         let tx = self.prepared.write().remove(&tx_id);
+        // Remembered even if nothing was prepared: the abort may have overtaken the Prepare.
+        self.decided.write().insert(tx_id);
 
         if let Some(tx) = tx {
             // Apply undo log in reverse order to restore previous state
@@ -2794,6 +2814,7 @@ impl TxParticipant {
             prepared: RwLock::new(state.prepared),
             locks: LockManager::from_serializable(state.lock_state),
             store,
+            decided: RwLock::new(HashSet::new()),
         }
     }
 
